@@ -16,12 +16,12 @@ LEVEL = "fault_enumeration"
 TECHNIQUE = "exhaustive fault injection: an exception or KeyboardInterrupt is raised at the entry of every update call (both stages) and of every frame write of bounded runs; the file system and the returned object are compared with a reference model of the runner cut at that point"
 RULE = (
     "enumerated grid: run length N in 1..Nmax (5 quick, 8 thorough) x save_every in {1,2,3,N,N+1} x thermalisation {off, 2 steps} x injection point "
-    "{entry of update call g for every g in both stages (and one past the end = no fault), entry of frame write w for every w} x {RuntimeError, "
+    "{entry of update call g for every g in both stages (and one past the end = no fault), entry of frame write w for every w, middle of frame write w for every w} x {RuntimeError, "
     "KeyboardInterrupt}; output path explicit/None, pre-existing files at the path ({}, out.h5, out.h5+out-1.h5, out-1.h5, stale out.h5.tmp, stale .tmp next to a taken serial name) and "
     "pause_on_interrupt (answering 'n') are rotated over the grid; non-trivial = the stop happens at a step >= 1 with at least one frame already written"
 )
 ASSUMPTIONS = [
-    "faults are injected at the entry of TDGLSolver.update (instance wrapper) and of DataHandler.save_time_step (class attribute patched inside the harness process); a fault in the middle of a frame write is not enumerated",
+    "faults are injected at the entry of TDGLSolver.update (instance wrapper), at the entry of DataHandler.save_time_step and in the middle of it (after the frame's group and first dataset were written; class attribute / module function patched inside the harness process)",
     "answering 'y' to the pause prompt (resume) is not covered by the property and not generated",
     "a KeyboardInterrupt striking outside the stepping loop (only possible in the very last, partial frame write) may propagate; a cancellation before any frame exists has no usable partial solution and only the file-system predicates are asserted there",
     "each case runs in a private working directory and TMPDIR",
@@ -51,7 +51,8 @@ def grid(tier):
         for k in sorted({1, 2, 3, N, N + 1}):
             for T in (0, 2):
                 frames = sorted(set(range(0, N + 1, k)) | {N})
-                points = [("update", g) for g in range(T + N + 1)] + [("save", w) for w in range(len(frames) + 1)]
+                points = ([("update", g) for g in range(T + N + 1)] + [("save", w) for w in range(len(frames) + 1)]
+                          + [("save_mid", w) for w in range(len(frames))])
                 for where, at in points:
                     for exc in ("RuntimeError", "KeyboardInterrupt"):
                         idx += 1
@@ -99,6 +100,8 @@ def check_case(spec):
             else:
                 frames_exp = sorted(set(before) | {s})
     else:
+        # "save": fault at the entry of frame write w; "save_mid": fault in the middle of it (after the frame's group and
+        # its first dataset exist).  Either way frame w must not be in the file.
         w = spec["at"]
         if w >= len(F):
             frames_exp, stop_step = F, None
@@ -142,14 +145,37 @@ def check_case(spec):
         orig_save = DataHandler.save_time_step
         counter = [0]
 
+        from tdgl.solver import runner as runner_mod
+
+        orig_get = runner_mod._get
+        armed = [False]
+
         def patched(self, state, data, running_state):
-            if spec["where"] == "save" and counter[0] == spec["at"]:
+            if spec["where"] == "save" and counter[0] == spec["at"] and not fired[0]:
                 counter[0] += 1
+                fired[0] = True
                 raise exc_type("injected at frame write")
+            if spec["where"] == "save_mid" and counter[0] == spec["at"] and not fired[0]:
+                armed[0] = True
             counter[0] += 1
-            return orig_save(self, state, data, running_state)
+            try:
+                return orig_save(self, state, data, running_state)
+            finally:
+                armed[0] = False
+
+        nget = [0]
+
+        def patched_get(item):
+            # called once per dataset inside the frame writer: fault after the first dataset of the target frame
+            if armed[0]:
+                nget[0] += 1
+                if nget[0] == 2 and not fired[0]:
+                    fired[0] = True
+                    raise exc_type("injected in the middle of a frame write")
+            return orig_get(item)
 
         DataHandler.save_time_step = patched
+        runner_mod._get = patched_get
         orig_enter = DataHandler.__enter__
         handlers = []
 
@@ -173,6 +199,7 @@ def check_case(spec):
                 got, err = "other_exception", exc
         finally:
             DataHandler.save_time_step = orig_save
+            runner_mod._get = orig_get
             DataHandler.__enter__ = orig_enter
             builtins.input = orig_input
         # ---- the writer's file handles are closed whatever happened
